@@ -426,6 +426,8 @@ int main(int argc, char **argv){
     std::string line;
     int scen = 0, step = 0;
     std::deque<std::string> pending;             // lines generated by macro commands (loadpool)
+    bool skip_rest = false;
+    int max_points = (getenv("VERIF_MAX_POINTS") != nullptr) ? atoi(getenv("VERIF_MAX_POINTS")) : 160;
     std::vector<int> last_cand[3];               // last candidate list per slot (multi-indexes, flattened)
     while(true){
         if (!pending.empty()){ line = pending.front(); pending.pop_front(); }
@@ -435,12 +437,13 @@ int main(int argc, char **argv){
         std::string cmd; ls >> cmd;
         if (cmd == "SCEN"){
             if (scen > 0) fprintf(out, "{\"e\":\"End\"}\n");
-            std::string label; ls >> label; scen++; step = 0;
+            std::string label; ls >> label; scen++; step = 0; skip_rest = false; pending.clear();
             for(auto &s : slots) s.g = TasmanianSparseGrid();
             fprintf(out, "{\"e\":\"Reset\",\"scen\":%s}\n", jstr(label).c_str());
             continue;
         }
         if (cmd == "OBS"){ ls >> obs_mask; continue; }
+        if (skip_rest) continue;      // the grid outgrew the size the judge handles comfortably: the scenario ends here
         int o = 1;
         if (cmd == "@2"){ o = 2; ls >> cmd; } else if (cmd == "@1"){ o = 1; ls >> cmd; }
         TasmanianSparseGrid &g = slots[o].g;
@@ -506,7 +509,8 @@ int main(int argc, char **argv){
                 const int *idx = (nn > 0) ? g.verifNeededIndexes() : g.verifLoadedIndexes();
                 int n = (nn > 0) ? nn : g.getNumPoints();
                 auto v = tokens_for(g, idx, n, epoch);
-                g.loadNeededValues(v);
+                if (g.empty()) g.loadNeededValues(v.data());    // the overload that announces runtime_error for an empty grid
+                else g.loadNeededValues(v);
             }else if (cmd == "loadwrong"){ // vector of the wrong size
                 int delta; ls >> delta; A("delta", jint(delta));
                 int n = (g.getNumNeeded() > 0) ? g.getNumNeeded() : g.getNumPoints();
@@ -714,6 +718,7 @@ int main(int argc, char **argv){
         fprintf(out, "{\"e\":%s,\"o\":%d,\"a\":%s,\"r\":%s,\"st\":%s,\"st2\":%s,\"obs\":%s%s}\n", jstr(cmd).c_str(), o, args.c_str(), jstr(res).c_str(),
                 project(slots[1].g).c_str(), project(slots[2].g).c_str(), obs.c_str(), extra.c_str());
         fflush(out);
+        for(int k=1; k<=2; k++) if (slots[k].g.getNumLoaded() + slots[k].g.getNumNeeded() > max_points) skip_rest = true;
     }
     if (scen > 0) fprintf(out, "{\"e\":\"End\"}\n");
     fclose(out);
